@@ -100,56 +100,80 @@ def gw_frame(name: str, req: bytes, n: int) -> dict[str, Any]:
 
 
 class Gateway:
+    """The HSFZ gateway.  It stays reachable for the whole scenario (`reachable()`): every TCP connection the
+    client opens is accepted, gets its own Wire and is served like the first one; every connection (`Conn(t, n)`),
+    everything written on it (`Out(..., c=n)`), everything fed to it (`Feed(..., c=n)`), its end (`Closed(t, c=n)`)
+    and a cut by the gateway (`Cut(t, c, how)`) is recorded with the connection number.  Frames are fed to the
+    newest connection."""
+
     def __init__(self, rec: Recorder) -> None:
         self.rec = rec
         self.listener = Listener()
         self.listener.on_accept = self._accepted
         self.wire: Wire | None = None
-        self.outbuf = b""
+        self.conn_no: dict[int, int] = {}   # id(wire) -> connection number (1 = the one of connect())
+        self.outbufs: dict[int, bytes] = {}
         self.on_data_out: Any = None
         self.last_req = b""
         self.nfeeds = 0
         self._q: list[list[Any]] = []
         self._waiting = False
 
-    def _accepted(self, w: Wire) -> None:
-        self.wire = w
-        self.outbuf = b""
-        w.on_out = self._on_out
-        w.on_client_close = lambda: self.rec.add("Closed")
+    def reachable(self) -> Any:
+        """Context manager: while active, the transport's connection attempts reach this gateway."""
+        return patched_connections(self.listener)
 
-    def _on_out(self, data: bytes) -> None:
-        self.outbuf += data
-        frames, self.outbuf = dec_out(self.outbuf)
+    def _accepted(self, w: Wire) -> None:
+        n = len(self.listener.wires)
+        self.wire = w
+        self.conn_no[id(w)] = n
+        self.outbufs[n] = b""
+        self.rec.add("Conn", n=n)
+        w.on_out = lambda data, n=n: self._on_out(n, data)
+        w.on_client_close = lambda n=n: self.rec.add("Closed", c=n)
+
+    def _on_out(self, n: int, data: bytes) -> None:
+        frames, self.outbufs[n] = dec_out(self.outbufs[n] + data)
         for f in frames:
-            self.rec.add("Out", f=f)
+            self.rec.add("Out", f=f, c=n)
             if f["k"] == "Data":
                 self.last_req = bytes(f["d"])
                 if self.on_data_out is not None:
                     self.on_data_out(f)
 
+    def cut(self, how: str = "eof") -> None:
+        """The gateway ends the newest connection (FIN behind what was sent so far)."""
+        w = self.wire
+        if w is None or w.eof_sent or w.broken or w.writer.is_closing():
+            return
+        self.rec.add("Cut", c=self.conn_no[id(w)], how=how)
+        w.eof()
+
     def feed_named(self, name: str, cut: int | None = None, gap_ms: int = 0) -> None:
         self.nfeeds += 1
+        if name == "EOF":
+            self.cut("eof")
+            return
         self.feed(gw_frame(name, self.last_req, self.nfeeds), cut=cut, gap_ms=gap_ms)
 
     def feed(self, frame: dict[str, Any], cut: int | None = None, gap_ms: int = 0) -> None:
         raw = enc(frame)
         f = {"k": frame["k"], "src": frame.get("src", -1), "dst": frame.get("dst", -1),
              "d": list(frame.get("d", [])), "cw": frame.get("cw", 0)}
+        w = self.wire  # a frame (all its pieces) travels on the connection that is the newest one now
+        assert w is not None
         if cut is None or cut <= 0 or cut >= len(raw):
-            self._q.append([raw, f, None])
+            self._q.append([raw, f, None, w])
         else:
-            self._q.append([raw[:cut], None, None])
-            self._q.append([raw[cut:], f, gap_ms])
+            self._q.append([raw[:cut], None, None, w])
+            self._q.append([raw[cut:], f, gap_ms, w])
         self._pump()
 
     def _pump(self) -> None:
         if self._waiting:
             return
-        w = self.wire
-        assert w is not None
         while self._q:
-            chunk, f, gap = self._q[0]
+            chunk, f, gap, w = self._q[0]
             if gap is not None:
                 self._q[0][2] = None
                 self._waiting = True
@@ -166,7 +190,7 @@ class Gateway:
                 return
             self._q.pop(0)
             if w.feed(chunk) and f is not None:
-                self.rec.add("Feed", f=f)
+                self.rec.add("Feed", f=f, c=self.conn_no[id(w)])
 
 
 def uri(ack_ms: int | None = None, tester: int = TESTER, ecu: int = ECU) -> str:
